@@ -89,6 +89,13 @@ def gen_projects(rng, quick):
             if tg:
                 j = rng.choice(tg)
                 proj["packages"][j] = G.gen_package(rng, j, shape="ns")
+        # every fourth project: a TAGGED package without any target (contributes nothing; since fix
+        # 904a16e the generated main imports it as `_`); everything else is listed and runs
+        if i % 4 == 1:
+            tg = sorted({s["pkg"] for s in specs if G.oracle_tag(s) is not None})
+            if len(tg) >= 2:
+                j = rng.choice(tg)
+                proj["packages"][j] = G.gen_package(rng, j, shape="empty")
         # the same package as a root import twice is a name clash (C07): drop a second root
         seen = set()
         for f in proj["files"]:
@@ -352,24 +359,9 @@ def run(ctx):
     else:
         projects = gen_projects(rng, ctx.quick)
         sequences = gen_sequences(rng, ctx.quick)
-    # observation only (no case, no oracle): a tagged import of a package without any target
-    watch = None
-    if not ctx.replay:
-        watch = G.assemble(rng, "z0000", "inside", [G.gen_spec(rng, 0, "group_lead", 0, "root"), G.gen_spec(rng, 1, "single_above", 1, "alias")], 2)
-        watch["packages"][0] = G.gen_package(rng, 0, shape="empty")
-        watch["packages"][0]["nested"] = None
-        G.uniquify(rng, watch)
     ctx.log("projects:", len(projects), "sequences:", len(sequences))
     results = pmap(lambda j: run_sequence(ctx, mage, unitbin, j, outside) if "sequence" in j else run_project(ctx, mage, j, outside),
-                   projects + sequences + ([watch] if watch else []))
-    if watch:
-        w = results.pop()
-        cov_watch = {"what": "a tagged import of a package WITHOUT any target (observation only; the property sentence would have it contribute nothing)",
-                     "mage_-l_exit": w["list_rc"], "error_class": w.get("error"), "listed": w.get("names"),
-                     "stderr": (w.get("stderr") or "")[-300:]}
-        ctx.coverage["observation_tagged_package_without_targets"] = cov_watch
-        if w["list_rc"] != 0:
-            ctx.notes.append("observation: a mage:import of a package without targets makes `mage -l` fail (%s): %s" % (w.get("error"), (w.get("stderr") or "").strip()[-200:]))
+                   projects + sequences)
     observations = results[:len(projects)]
     # the steps of the sequences are cases like the projects: (state, observation); origin[i] = (sequence, step) for reporting
     nproj = len(projects)
